@@ -98,6 +98,15 @@ def names_in(e):
     return {n.id for n in ast.walk(e) if isinstance(n, ast.Name)}
 
 
+def _attr_path(e):
+    """self.a.b (an attribute chain on a name, at least one attribute)"""
+    if not isinstance(e, ast.Attribute):
+        return False
+    while isinstance(e, ast.Attribute):
+        e = e.value
+    return isinstance(e, ast.Name)
+
+
 def single_defs(fn):
     """{name: value expr} for locals bound exactly once by a plain assignment
     (and never augmented / re-bound by a loop, with, walrus or tuple target)"""
@@ -127,6 +136,10 @@ def single_defs(fn):
                         and all(isinstance(x, ast.Name) for x in t.elts):
                     for tt, vv in zip(t.elts, n.value.elts):      # a, b = x, y
                         bump(tt, vv)
+                    continue
+                if isinstance(t, (ast.Tuple, ast.List)) and all(isinstance(x, ast.Name) for x in t.elts) and _attr_path(n.value) and len(n.targets) == 1:
+                    for i, tt in enumerate(t.elts):                # a, b = self.pair   ->   a = self.pair[0], b = self.pair[1]
+                        bump(tt, ast.Subscript(value=n.value, slice=ast.Constant(value=i), ctx=ast.Load()))
                     continue
                 bump(t, n.value if isinstance(t, ast.Name) else None)
         elif isinstance(n, ast.AnnAssign) and n.value is not None:
@@ -533,4 +546,33 @@ def path_returns(fnode, max_paths=64):
     ok = run(body, [], {})
     if ok is None or len(out) > max_paths:
         return None
+    return out
+
+
+# --------------------------------------------------------------------------- statement conditions with early exits
+def stmt_conditions(stmts, base=None):
+    """{id(stmt): [(test, polarity)]} for every statement reachable through if-arms (and with/try bodies) of the list:
+    the enclosing if-tests plus the negation of every earlier sibling `if c: ...; continue|return|raise|break`"""
+    out = {}
+
+    def ends_exit(body):
+        return bool(body) and isinstance(body[-1], (ast.Continue, ast.Return, ast.Raise, ast.Break))
+
+    def go(lst, conds):
+        conds = list(conds)
+        for st in lst:
+            out[id(st)] = list(conds)
+            if isinstance(st, ast.If):
+                go(st.body, conds + [(st.test, True)])
+                go(st.orelse, conds + [(st.test, False)])
+                if ends_exit(st.body) and not ends_exit(st.orelse):
+                    conds.append((st.test, False))
+                elif ends_exit(st.orelse) and not ends_exit(st.body):
+                    conds.append((st.test, True))
+            elif isinstance(st, (ast.With, ast.AsyncWith)):
+                go(st.body, conds)
+            elif isinstance(st, ast.Try):
+                go(st.body, conds)
+                go(st.finalbody, conds)
+    go(stmts, base or [])
     return out
